@@ -714,6 +714,35 @@ def gen_range_cases(factories, pfx):
     return cases
 
 
+def gen_exhaustive_cases(pfx, max_head_points=2000000, max_rule_points=2500):
+    """EXHAUSTIVE (thorough tier): every driver x every admissible point count x every alias x auto-degree:0..max of
+    every shape, un-refined and behind refine: / refine*2: / refine*3: (and refine*0:), with the tensor:/scalar:
+    head in the prefix configuration.  Full rule (moments judged) up to max_rule_points, name/point count above;
+    combinations beyond max_head_points points are counted as skipped."""
+    cases, skipped = [], 0
+    for shape in SHAPES:
+        names = canonical_names(pfx, shape)
+        pre = ""
+        if pfx and (shape == "s1" or not SIMPLEX[shape]):
+            pre = "scalar:" if shape == "s1" else "tensor:"
+        names += [(pre if a != "midpoint" else "") + a for a in shape_aliases(shape)]
+        names += ["auto-degree:%d" % d for d in range(0, MAX_AUTO[shape] + 1)]
+        for nm in names:
+            spec = spec_parse(pfx, shape, nm)
+            if spec["kind"] == "auto":
+                base_pts = 80 if SIMPLEX[shape] and shape != "s1" else (spec["D"] // 2 + 1) ** DIM[shape]
+            else:
+                base_pts = spec["npts"]
+            for k, head in ((0, ""), (0, "refine*0:"), (1, "refine:"), (2, "refine*2:"), (3, "refine*3:")):
+                pts = base_pts * REFINE_COUNT[shape] ** k
+                if pts > max_head_points:
+                    skipped += 1
+                    continue
+                op = "rule" if pts <= max_rule_points else "head"
+                cases.append("%s %d %s %s" % (op, pfx, shape, enhex(head + nm)))
+    return cases, skipped
+
+
 CORPUS = {
     "names0": [
         # F-C14-4 (fixed 5a16de52a / c82e1d7f9): a numeric token must be a numeral and nothing else -> refused
@@ -824,6 +853,12 @@ def main(argv):
                                **common)]
     else:
         n_names = 1500 if quick else 60000
+        EXH = [gen_exhaustive_cases(0), gen_exhaustive_cases(1)] if not quick else [([], 0), ([], 0)]
+        gen_info["exhaustive_enumeration"] = {
+            "what": "driver x admissible count x alias x auto-degree:0..max x shape x {plain, refine*0:, refine:, "
+                    "refine*2:, refine*3:} x both prefix configurations (thorough tier only)",
+            "names_plain_config": len(EXH[0][0]), "names_prefix_config": len(EXH[1][0]),
+            "skipped_over_2e6_points": EXH[0][1] + EXH[1][1]}
         streams = [
             vlib.Stream("tables", CORPUS["tables"] + gen_table_cases(0, 1000 if quick else 8000), [bins["p0"]], drv, **common),
             vlib.Stream("names0", CORPUS["names0"] + gen_name_cases(rng, 0, n_names), [bins["p0"]], drv, **common),
@@ -832,6 +867,10 @@ def main(argv):
             vlib.Stream("transform", gen_transform_cases(rng, 400 if quick else 15000), [bins["p0"]], drv, **common),
             vlib.Stream("ranges", gen_range_cases(factories, 0), [bins["p0"]], drv, **common),
             vlib.Stream("ranges.pfx", gen_range_cases(factories, 1), [bins["p1"]], drv, **common),
+        ] + ([] if quick else [
+            vlib.Stream("exhaustive", EXH[0][0], [bins["p0"]], drv, **common),
+            vlib.Stream("exhaustive.pfx", EXH[1][0], [bins["p1"]], drv, **common),
+        ]) + [
             vlib.Stream("assert-build", ASSERT_BUILD + gen_name_cases(rng, 0, 200 if quick else 2000), [bins["chk"]], drv, **common),
         ]
     rule = ("tables: every canonical name, alias and auto-degree:0..max+2 of the six shapes through the full rule at "
